@@ -61,6 +61,14 @@ static int it_next(sqfs_dir_iterator_t *base, sqfs_dir_entry_t **out)
 		goto fail;
 
 	ent->inode = it->state.ent_ref;
+
+	/*
+	 * The inode reference is only an identity together with a device
+	 * number; the very first inode of an image has reference 0, which
+	 * together with device 0 reads as "no identity known" to users such
+	 * as the recursive iterator's loop detection.
+	 */
+	ent->dev = 1;
 	sqfs_inode_get_xattr_index(it->inode, &it->xattr_idx);
 
 	*out = ent;
